@@ -155,6 +155,14 @@ func (hash *SexpHash) jsonHashHelper() string {
 
 	for _, key := range hash.KeyOrder {
 		keyst := jsonKeyText(key)
+		if keyst == "Atype" || keyst == "zKeyOrder" {
+			// the encoding keeps the type name and the key order
+			// under these two names, next to the fields; a field
+			// of that name would be written twice and read back
+			// as the type name or the order.
+			panic(fmt.Errorf("cannot encode a %s with a key named '%s': "+
+				"the name is reserved by the encoding", hash.TypeName, keyst))
+		}
 		ko = append(ko, keyst)
 		val, err := hash.storedValue(key)
 		if err == nil {
